@@ -18,7 +18,7 @@ NM == NMof(Case)
 
 Init == cid \in 1..Len(Cases) /\ G = StartG(Cases[cid])
 Next == G.pc = "run" /\ G' = Advance(Case, G) /\ UNCHANGED cid
-Spec == Init /\ [][Next]_mvars
+Spec == Init /\ [][Next]_mvars /\ WF_mvars(Next)
 
 \* a member that fail_all() reached stays invalid; validity never comes back (C04)
 GroupValidityMonotone == [][\A m \in 1..NM : G'.S[m].st.valid => G.S[m].st.valid]_mvars
@@ -30,6 +30,9 @@ FailAllReaches == [][(Case.coordinated /\ G.sig.fail /\ G'.pc = "run") => ~G'.S[
 YieldedInOrder == Increasing(G.yielded) /\ \A j \in 1..Len(G.yielded) : G.yielded[j] < Len(Case.file)
 \* every member sees the records in order without gaps: the coordinator is never ahead of or behind a member it lets consider
 MemberInStep == (G.pc = "run" /\ Case.kind = "byline") => G.S[G.m].k = G.k
+
+\* every joint run ends (liveness under weak fairness of Advance)
+Termination == <>(G.pc = "end")
 
 \* ---- C08 on concrete members: without cross-path signals ------------------------------------------------
 \* (Case.signals is FALSE when no member uses stop_all/fail_all/skip_all/advance_all)
